@@ -98,6 +98,7 @@ def main():
     a = ap.parse_args()
     pid = a.pid.upper()
     tier = a.tier if a.tier in ('quick', 'thorough') else 'quick'
+    os.environ['VERIF_TIER_EFFECTIVE'] = tier
     seed = int(os.environ.get('VERIF_SEED', '0') or 0)
     t0 = time.time()
     mod = importlib.import_module('harness.' + pid.lower())
